@@ -42,6 +42,9 @@ func ApplyOps(m map[int]int, ops []Op) []bool {
 	return res
 }
 
+// EffSlot: sop.NewStoreInfo rounds an odd slot length down.
+func EffSlot(p *Program) int { return p.Store.Slot - p.Store.Slot%2 }
+
 func InitMap(p *Program) map[int]int {
 	m := map[int]int{}
 	for _, kv := range p.Init {
